@@ -332,7 +332,7 @@ def child_entry(entry):
                 rep["checksum_err"] = f"{type(e).__name__}: {str(e)[:300]}"
             if entry.get("run") and "checksum_err" not in rep:
                 try:
-                    rep["exec"] = execute(job, entry["log"])
+                    rep["exec"] = execute(job, entry["log"], seconds=entry.get("watchdog", 600))
                 except Exception as e:  # noqa
                     rep["exec_err"] = f"{type(e).__name__}: {str(e)[:300]}"
             try:
